@@ -205,7 +205,10 @@ func (so *selOp) apply(v int) {
 	t.H = mix(t.H, uint64(KRecv), uint64(o.Ord), cs.closeH, 0xc105ed)
 }
 
-func (e *Exec) runSel(so *selOp, kind Kind, obj *Obj) {
+func (e *Exec) runSel(so *selOp, kind Kind, obj *Obj) { e.runSelAt(so, kind, obj, 4) }
+
+// runSelAt is runSel with the number of frames between it and the user's statement.
+func (e *Exec) runSelAt(so *selOp, kind Kind, obj *Obj, skip int) {
 	so.e = e
 	so.t = e.cur
 	so.cs = make([]*chanState, len(so.cases))
@@ -216,7 +219,7 @@ func (e *Exec) runSel(so *selOp, kind Kind, obj *Obj) {
 		obj = so.cs[0].obj
 	}
 	p := &Pend{Kind: kind, Obj: obj, Variants: so.variants, Apply: so.apply, Deviation: so.deviation, sel: so}
-	p.pc = callerPC(3)
+	p.pc = callerPC(skip)
 	e.Do(p)
 	if so.sendPanic {
 		panic("send on closed channel")
@@ -268,6 +271,25 @@ func NewRecv[C ~chan T | ~<-chan T, T any](ch C) *RecvCase[T] {
 // NewSend builds a send clause for Select.
 func NewSend[C ~chan T | ~chan<- T, T any](ch C, v T) *SendCase[T] {
 	return &SendCase[T]{p: chanPtr(ch), c: cap(ch), keep: ch, v: v}
+}
+
+// NewSendTo(ch)(v) is NewSend with the element type taken from the channel alone (used by the
+// instrumenter: v then converts by plain assignability, as in `case ch <- v:`).
+func NewSendTo[C ~chan T | ~chan<- T, T any](ch C) func(T) *SendCase[T] {
+	return func(v T) *SendCase[T] { return NewSend[C, T](ch, v) }
+}
+
+// SendTo(ch)(v) is Send with the element type taken from the channel alone.
+func SendTo[C ~chan T | ~chan<- T, T any](ch C) func(T) {
+	return func(v T) {
+		e := cur
+		if e == nil || e.cur == nil || e.killed {
+			Send[C, T](ch, v)
+			return
+		}
+		sc := &SendCase[T]{p: chanPtr(ch), c: cap(ch), keep: ch, v: v}
+		e.runSelAt(&selOp{cases: []selCase{sc}}, KSend, nil, 3) // the closure is called from the user's statement
+	}
 }
 
 // Select fires one ready clause (or default) and returns its index (-1 = default).
